@@ -444,6 +444,7 @@ fn main() {
             "dbopen" => return dbx::dbopen(&args[2..]),
             "dbcount" => return dbx::dbcount(&args[2..]),
             "dbstale" => return dbx::dbstale(&args[2..]),
+            "dbforeign" => return dbx::dbforeign(&args[2..]),
             "topk" => return dbx::topk(&args[2..]),
             _ => {}
         }
